@@ -6,5 +6,5 @@ From VV Require Import Evo.EvoDefs Evo.TuneDefs.
 Extraction "evo_model.ml" ring ring_draw_ok step_ok run init_state parents_of select
   inv_b layer_bound_b layers_nonempty_b size_constant_b summary_b best_monotone_b keeps_max_b
   tournament_parents_b alps_parents_b parents_exist_b sorted_desc_b in_zone_b fits_of
-  after_generation_alps is_alps is_de
+  after_generation_alps std_stop_condition is_alps is_de
   tune tune_rec is_valid filled kept sizes_ok all_defined ranges_ok strategy_needs_ok typeid_repaired typeid_pinned user_wf.
